@@ -104,6 +104,13 @@ def evaluate(case):
             q = np.arange(N + 1)
         sc = max(float(np.abs(f).max()), 1e-300)
         _, G, _ = tr.F_to_G(q, f, r)
+        # the partner handed back by an earlier call is the caller's: transforming other data between the same grid objects leaves it alone
+        G_held, G_snap = G, np.array(G, copy=True)
+        _, G_other, _ = tr.F_to_G(q, f[::-1].copy() * 0.5, r)
+        if not np.array_equal(np.asarray(G_held), G_snap, equal_nan=True):
+            fails.append(f"F_to_G on matched grids (N={N}): the array returned by an earlier call changed when the same Transformer transformed "
+                         "other data onto the same grid (it is a buffer of the object)")
+            return fails
         _, f2, _ = tr.G_to_F(r, G, q)
         if exceeds(np.abs(np.asarray(f2) - f).max(), 1e-9 * sc * max(1.0, np.sqrt(N))):
             fails.append(f"F->G->F on matched grids (N={N}) does not return the input: {np.abs(np.asarray(f2) - f).max():.3g}")
